@@ -9,33 +9,69 @@ TRUSTED = ["the tables the theorems range over are regenerated from the imported
            "enum members with all attributes, both port tables, and the 4 x 9 class-acceptance table obtained by calling each real "
            "constructor with each DeviceType"]
 ASSUMPTIONS = ["the four device classes and their categories are fixed by name in Spec/Tables.v class_category"]
-RULE = ("exhaustive: all 36 (class, type) constructor calls, all 9 types (code, protocol, category), all 4 categories in both port "
-        "tables; each compared with the regenerated Coq table and judged against the property; non-trivial = distinct table rows")
+RULE = ("exhaustive: all 36 (class, type) pairs, each constructor called under both device states and varied other fields, all 9 types (code, protocol, category), all 4 categories in both port "
+        "tables; each compared with the regenerated Coq table and judged against the property, once at import and once after a bridge heard every family on ports of its own and both API classes ran an operation; non-trivial = distinct table rows")
 REQUIREMENT = ("class accepts type iff same category; model codes unique 4-hex-digit; protocol 1 -> UDP 20002 / TCP 9957, protocol 2 -> "
                "UDP 20003 / TCP 10000; every category present in both port tables")
 CLASS_CAT = {"SwitcherPowerPlug": "POWER_PLUG", "SwitcherWaterHeater": "WATER_HEATER", "SwitcherThermostat": "THERMOSTAT", "SwitcherShutter": "SHUTTER"}
 
 
+DETAIL = {}
+def variants():
+    for st in DeviceState:
+        for name in ("n", "", "x" * 32, "שלום"):
+            yield (st, "aabbcc", "00", "1.2.3.4", "AA:BB:CC:DD:EE:FF", name)
+        yield (st, "000000", "ff", "0.0.0.0", "00:00:00:00:00:00", "n")
+
+
 def construct(cn, t):
-    base = (DeviceState.ON, "aabbcc", "00", "1.2.3.4", "AA:BB:CC:DD:EE:FF", "n")
-    try:
-        if cn == "SwitcherPowerPlug": device.SwitcherPowerPlug(t, *base, 0, 0.0)
-        elif cn == "SwitcherWaterHeater": device.SwitcherWaterHeater(t, *base, 0, 0.0, "00:00:00", "00:00:00")
-        elif cn == "SwitcherThermostat": device.SwitcherThermostat(t, *base, device.ThermostatMode.COOL, 0.0, 0, device.ThermostatFanLevel.LOW, device.ThermostatSwing.OFF, "R")
-        else: device.SwitcherShutter(t, *base, 0, device.ShutterDirection.SHUTTER_STOP)
-        return "accepted"
-    except ValueError: return "refused"
-    except Exception as e: return "raised " + type(e).__name__
+    """the constructor's verdict on the type under every variation of the other fields; 'depends on ...' if it is not constant"""
+    seen = {}
+    for b in variants():
+        try:
+            if cn == "SwitcherPowerPlug": [device.SwitcherPowerPlug(t, *b, w, a) for w, a in ((0, 0.0), (2600, 11.8), (65535, 297.9))]
+            elif cn == "SwitcherWaterHeater": [device.SwitcherWaterHeater(t, *b, w, a, r, au) for w, a, r, au in ((0, 0.0, "00:00:00", "00:00:00"), (2600, 11.8, "00:45:10", "23:59:59"))]
+            elif cn == "SwitcherThermostat": [device.SwitcherThermostat(t, *b, m, 21.5, 24, f, sw, "ELEC7022") for m in device.ThermostatMode for f in device.ThermostatFanLevel for sw in device.ThermostatSwing]
+            else: [device.SwitcherShutter(t, *b, pos, d) for pos in (0, 50, 100) for d in device.ShutterDirection]
+            r = "accepted"
+        except ValueError: r = "refused"
+        except Exception as e: r = "raised " + type(e).__name__
+        seen.setdefault(r, b)
+    if len(seen) == 1: return next(iter(seen))
+    DETAIL[(cn, t.name)] = "; ".join("%s with state %s name %r" % (r, b[0].name, b[5]) for r, b in sorted(seen.items()))
+    return "depends on the other fields"
+
+
+def exercise():
+    """use the library the way an application does: a bridge hearing every family on ports of its own choosing, both API classes
+    talking to a scripted device; the tables must read the same afterwards"""
+    import asyncio
+    from props import c05, c06
+    caps = c05.captures()
+    async def go():
+        await world.feed_bridge(2, [(k % 2, d) for k, d in enumerate(caps + caps)], (), c05.show, c06.sentinel)
+        for t2 in (False, True):
+            s = world.ScriptedApi(t2, "ab1c2d", "18")
+            await s.run(9 if t2 else 11, [], [bytes(8) + b"\x01\x02\x03\x04" + bytes(12), bytes(120)], 1_700_000_000)
+    asyncio.run(go())
 
 
 def run(tier, rnd, out):
+    tables(out, "")
+    exercise()
+    tables(out, "-after-the-library-was-used")
+    out.exhaustive = True
+
+
+def tables(out, suffix):
     gen = open(os.path.join(lib.COQ, "theories", "Gen", "Extracted.v")).read()
-    rows = dict(((m.group(1), m.group(2)), m.group(3)) for m in re.finditer(r'\("(Switcher\w+)", "(\w+)", (true|false)\)', gen))
+    rows = dict(((m.group(1), m.group(2)), m.group(3)) for m in re.finditer(r'\("(Switcher\w+)", "(\w+)", (true|false)\)', gen[gen.index("class_accepts :="):gen.index("class_accepts_some")]))
     cases = [{"cls": cn, "type": t.name} for cn in CLASS_CAT for t in DeviceType]
     io = [construct(c["cls"], DeviceType[c["type"]]) for c in cases]
-    mo = [{"true": "accepted", "false": "refused"}.get(rows.get((c["cls"], c["type"])), "missing") for c in cases]
+    some = dict(((m.group(1), m.group(2)), m.group(3)) for m in re.finditer(r'\("(Switcher\w+)", "(\w+)", (true|false)\)', gen[gen.index("class_accepts_some"):]))
+    mo = [{("true", "true"): "accepted", ("false", "false"): "refused"}.get((rows.get((c["cls"], c["type"])), some.get((c["cls"], c["type"]))), "depends on the other fields") for c in cases]
     ex = ["accepted" if DeviceType[c["type"]].category.name == CLASS_CAT[c["cls"]] else "refused" for c in cases]
-    lib.differential(out, "class-x-type", cases, io, mo, ex, lambda c: "%s(%s)" % (c["cls"], c["type"]), sample=lambda c: c, classify=lambda c, i: i)
+    lib.differential(out, "class-x-type" + suffix, cases, io, mo, ex, lambda c: "%s(%s)%s" % (c["cls"], c["type"], " [" + DETAIL[(c["cls"], c["type"])] + "]" if (c["cls"], c["type"]) in DETAIL else ""), sample=lambda c: c, classify=lambda c, i: i)
     tcases = [{"type": t.name} for t in DeviceType]
     codes = [t.hex_rep for t in DeviceType]
     io = []; ex = []
@@ -50,11 +86,10 @@ def run(tier, rnd, out):
         tp = re.search(r'tcp_port_of_category := \[.*?\("%s", (\d+)%%N\)' % (m.group(3) if m else "?"), gen)
         up = re.search(r'udp_port_of_category := \[.*?\("%s", (\d+)%%N\)' % (m.group(3) if m else "?"), gen)
         mo.append("code-ok=%s proto=%s tcp=%s udp=%s" % (bool(m) and codes.count(m.group(1)) == 1, m.group(2) if m else "?", tp.group(1) if tp else None, up.group(1) if up else None))
-    lib.differential(out, "types-and-ports", tcases, io, mo, ex, lambda c: "DeviceType." + c["type"], sample=lambda c: c)
+    lib.differential(out, "types-and-ports" + suffix, tcases, io, mo, ex, lambda c: "DeviceType." + c["type"], sample=lambda c: c)
     cats = [{"category": c.name} for c in DeviceCategory]
     io = ["tcp=%s udp=%s" % (c in api.SWITCHER_DEVICE_TO_TCP_PORT, c in bridge.SWITCHER_DEVICE_TO_UDP_PORT) for c in DeviceCategory]
-    lib.differential(out, "categories", cats, io, None, ["tcp=True udp=True"] * len(cats), lambda c: "DeviceCategory." + c["category"])
-    out.exhaustive = True
+    lib.differential(out, "categories" + suffix, cats, io, None, ["tcp=True udp=True"] * len(cats), lambda c: "DeviceCategory." + c["category"])
 
 
 def replay(rp, out):
